@@ -367,7 +367,7 @@ func TestVerifC10(t *testing.T) {
 		}
 		cases = sel
 	}
-	nRandom := cfg.N(6000, 600000)
+	nRandom := cfg.N(6000, 4000000)
 	rep.Set("enumerated_cases_total", nEnum)
 	rep.Set("enumerated_cases_run", len(cases))
 	replayIdx := -1
